@@ -134,6 +134,33 @@ def _with_os(spec, of):
 for _n in _O3:
     _with_os(PROPS['C%02d' % _n], 2 if _n in (17, 18, 19) else 8)
 
+# the real width selected through A_REAL_TYPE instead of A_SIZE_REAL (seeded change C10-M): a sibling of the first float / long double configuration of each check
+def _with_real_type(spec):
+    base = spec['configs']
+
+    def configs(tier):
+        cs = base(tier)
+        out = []
+        for w in (4, 16):
+            for c in cs:
+                if c.get('real') == w and not c.get('hflags') and c.get('flavour') in (None, 'san') and not c.get('libflags') and not c.get('cflags'):
+                    d = dict(c)
+                    d.update(name=c['name'] + '-by-real-type', real_via_type=True, nworkers=2, of=4)
+                    if c['name'].startswith('all-off'):  # C10, C11: every switch on here (the usual build), their float configuration has them off
+                        d.pop('zero', None)
+                        d.pop('have', None)
+                        d['name'] = 'all-on-f%d-by-real-type' % (w * 8)
+                    out.append(d)
+                    break
+        return cs + out
+    spec['configs'] = configs
+    spec['parallel_configs'] = spec.get('parallel_configs', 1) + 1
+    spec['technique'] = spec.get('technique', '') + '; the float / long double widths also selected through A_REAL_TYPE with A_SIZE_REAL undefined'
+
+
+for _n in range(8, 17):
+    _with_real_type(PROPS['C%02d' % _n])
+
 # link-time optimisation with strict aliasing on both sides (seeded changes C17-K, C19-K): harness/h_lto_codec.c hands the byte-oriented routines objects it has
 # just written through typed lvalues; library routines are inlined into those callers
 for _n in (17, 18, 19):
